@@ -92,7 +92,7 @@ def run(ctx):
     known = {k["id"]: k for k in c.known_findings("C18")}
     seen_known = set()
     real = []
-    for f in rep["failures"]:
+    for f in (rep["failures"] or []):   # a run without a single failure: Go writes the nil slice as null
         k = classify_known(f)
         if k and k in known:
             seen_known.add(k)
